@@ -5,9 +5,6 @@ cd "$(dirname "$0")"
 . ./env.sh
 cd harness
 mkdir -p ../.build
-for pkg in $(ls -d */ | grep -v internal | tr -d /); do
-  if ls $pkg/*_test.go >/dev/null 2>&1; then
-    "$GO" test -c -tags verif -vet=off -o ../.build/$pkg.test ./$pkg
-  fi
-done
+"$GO" build -tags verif ./internal/... 
+ls -d c[0-9]*/ | tr -d / | xargs -P 4 -I{} "$GO" test -c -tags verif -vet=off -o ../.build/{}.test ./{}
 echo setup ok
